@@ -737,6 +737,7 @@ def binary_session(app, commands, timeout=60):
             if until and l.startswith(until): return True
         return until is None
     ok = True
+    sent_go = [0]
     for c in commands:
         if c.startswith('@sleep'):
             time.sleep(int(c.split()[1]) / 1000.0); continue
@@ -744,10 +745,17 @@ def binary_session(app, commands, timeout=60):
             p.stdin.write(c + '\n'); p.stdin.flush()
         except BrokenPipeError:
             ok = False; break
+        if c.startswith('go ') and not c.endswith(' x'):
+            sent_go[0] += 1
         if c.startswith('go ') and 'infinite' not in c and not c.endswith(' x'):
             ok = drain('bestmove') and ok
         elif c == 'stop':
-            ok = drain('bestmove') and ok
+            # wait for the answer only if a search is still unanswered (a `go infinite` on a root without legal
+            # move is answered at once, before the stop)
+            if sum(1 for l in lines if l.startswith('bestmove')) < sent_go[0]:
+                ok = drain('bestmove') and ok
+            else:
+                time.sleep(0.01); drain(None)
         elif c in ('isready',):
             ok = drain('readyok', 10) and ok
         elif c == 'uci':
